@@ -10,9 +10,10 @@
                   (stale, of another model, removed file) are arbitrary.
 
    C12_no_panic_partial [U, partial coverage]: for every table set passing tables_ok12 and every operation of covered_op
-                  (create_sub_element / _at, get_or_create_sub_element, attributes, comment, character content items,
-                  remove_character_data, AutosarModel::new) the call returns (Ok or Err): no Pan, no Fuel.
-                  pending_op = the other 16 constructors: covered by the correspondence + implementation fuzzer only.
+                  the call returns (Ok or Err): no Pan, no Fuel.
+   C12_coverage   covered_op = every constructor of `op` except create_copied_sub_element(+_at), move_element_here(+_at)
+                  and set_character_data with a Float value (f64::to_string is not modelled): 22 of 26 constructors.
+                  pending_op = the rest: covered by the correspondence + implementation fuzzer only.
    C12_tables_real [F]: tables_ok12 holds for the regenerated tables.
    C12_depth_tree / C12_depth_walk [U]: the subtree below any node has height < number of allocated nodes + 1 (= the fuel
                   the model gives), and the recursive pre-order walk returns exactly when its fuel exceeds the height:
@@ -35,6 +36,14 @@ Theorem C12_no_panic_partial :
       (forall s, run_op T tab_el tab_en check_fn LATEST root_attrs o w <> Pan s) /\
       run_op T tab_el tab_en check_fn LATEST root_attrs o w <> Fuel.
 Proof. exact no_panic_covered'. Qed.
+
+Theorem C12_coverage : forall o,
+  covered_op o = match o with
+                 | OpCopy _ _ | OpCopyAt _ _ _ | OpMove _ _ | OpMoveAt _ _ _ => false
+                 | OpSetCData _ (DFloat _) => false
+                 | _ => true
+                 end.
+Proof. exact coverage. Qed.
 
 Theorem C12_tables_real : tables_ok12 RT = true.
 Proof. exact tables_ok12_real. Qed.
